@@ -195,13 +195,6 @@ func (fc *FuncCtx) execCall(fr *Frame, st *State, site ssa.Instruction, c *ssa.C
 		recv := fc.val(fr, st, c.Value)
 		extra["recv"] = recv
 		con := fc.eng.ifaceContract(c)
-		if con != nil {
-			for i, p := range con.Params {
-				if i < len(args) {
-					extra[p.Name] = args[i]
-				}
-			}
-		}
 		fc.atCallClauses(fr, st, site, short, full, extra, pos)
 		fc.bumpCalls(st, short)
 		rs := recv.(Scalar)
@@ -247,25 +240,6 @@ func (fc *FuncCtx) execCall(fr *Frame, st *State, site ssa.Instruction, c *ssa.C
 		return r
 	}
 	con := fc.eng.contractFor(fn)
-	if con != nil {
-		names := con.Params
-		all := args
-		if con.Recv != nil && len(all) > 0 {
-			extra[con.Recv.Name] = all[0]
-			all = all[1:]
-		}
-		for i, p := range names {
-			if i < len(all) {
-				extra[p.Name] = all[i]
-			}
-		}
-	} else if fn.Signature != nil {
-		for i, p := range fn.Params {
-			if i < len(args) {
-				extra[p.Name()] = args[i]
-			}
-		}
-	}
 	fc.atCallClauses(fr, st, site, short, full, extra, pos)
 	fc.bumpCalls(st, short)
 	if con != nil && con.Flags["inline"] == "" {
@@ -306,8 +280,12 @@ func (fc *FuncCtx) applyModSet(st *State, ms *ModSet) {
 		fc.bumpAlloc(st)
 		return
 	}
+	pre := fc.allocTerm(st)
 	if len(ms.keys) > 0 {
-		fc.havocKeys(st, ms.matcher())
+		fc.havocKeys(st, ms.matcher(), "")
+	}
+	if fo := ms.freshOnly(); len(fo.keys) > 0 {
+		fc.havocKeys(st, fo.matcher(), pre)
 	}
 	if ms.allocs {
 		fc.bumpAlloc(st)
@@ -361,9 +339,20 @@ func (fc *FuncCtx) callWithContract(fr *Frame, st *State, con *Contract, fn *ssa
 		} else {
 			ms := &ModSet{keys: map[string]bool{}}
 			for _, p := range pats {
+				if strings.HasPrefix(p, "elemsof(") && strings.HasSuffix(p, ")") {
+					// only the elements p[0:len(p)] of the named slice parameter may change
+					pv, ok := vars[p[8:len(p)-1]].(SliceV)
+					if !ok {
+						fc.unsupported("elemsof(%s): not a slice parameter", p)
+					}
+					fc.havocSliceRange(st, pv)
+					continue
+				}
 				ms.keys[fc.assignPattern(p, con)] = true
 			}
-			fc.havocKeys(st, ms.matcher())
+			if len(ms.keys) > 0 {
+				fc.havocKeys(st, ms.matcher(), "")
+			}
 		}
 		fc.bumpAlloc(st)
 	case fn != nil && fc.eng.inRepo(fn) && len(fn.Blocks) > 0:
@@ -404,6 +393,23 @@ func (fc *FuncCtx) callWithContract(fr *Frame, st *State, con *Contract, fn *ssa
 }
 
 type calleeScope struct{ con *Contract }
+
+// havocSliceRange: the elements sv[0:len] get arbitrary values, everything else in that component is unchanged.
+func (fc *FuncCtx) havocSliceRange(st *State, sv SliceV) {
+	et := sv.Elem
+	if _, isSt := et.Underlying().(*types.Struct); isSt && fc.structIsFlat(et) {
+		fc.unsupported("elemsof on struct elements")
+	}
+	idxSort := fc.intSort()
+	srt := fc.sortOf(et)
+	key := "E!" + typeKey(et)
+	full := arraySort([]string{"Int", idxSort}, srt)
+	cur := fc.compTerm(st, key, full)
+	row := fc.u.fresh("hrow", "(Array "+idxSort+" "+srt+")")
+	inR := tAnd(fc.ile(sv.Off, "i"), fc.ilt("i", fc.iadd(sv.Off, sv.Len)))
+	fc.u.fact(st.pc, "(forall ((i "+idxSort+")) (! "+tImp(tNot(inR), tEq("(select "+row+" i)", "(select (select "+cur+" "+sv.Base+") i)"))+" :pattern ((select "+row+" i))))")
+	fc.setComp(st, key, full, "(store "+cur+" "+sv.Base+" "+row+")")
+}
 
 func shortName(key string) string {
 	if i := strings.LastIndex(key, "/"); i >= 0 {
@@ -870,7 +876,7 @@ func (fc *FuncCtx) execGo(fr *Frame, st *State, x *ssa.Go) {
 	}
 	if len(keys) > 0 {
 		m := (&ModSet{keys: keys}).matcher()
-		fc.havocKeys(st, m)
+		fc.havocKeys(st, m, "")
 		st.volatile = append(st.volatile, m)
 	}
 }
